@@ -274,6 +274,8 @@ def translate(ctx):
 def tables_sx(words=None):
     """the tables as the driver wants them; the regex rows may be restricted to the operators of one cell (List.lookup on the
     restricted table returns the same row)"""
+    if words is not None:
+        words = {w[:-1] if w.endswith("\n") else w for w in words}  # `$` also matches before one final newline
     rows = D["regex"] if words is None else [r for r in D["regex"] if r[0] in words]
     return [rows, D["modes"], D["write_modes"], D["redir_all"], D["redir_err"], D["redir_out"], D["e2o"], D["o2e"], D["a2p"], D["e2p"]]
 
@@ -410,7 +412,10 @@ def cell_sx(cell, quirks):
         for rd in st["redirs"]:
             loc = Sym("none") if rd["target"] is None else (Sym("many") if rd["target"] == "many" else [Sym("one"), rd["target"]])
             rs.append([rd["op"], loc])
-        stages.append([Sym(st["kind"]), rs])
+        kind = st["kind"]
+        if kind == "procU" and any(min(rd.get("pos", 3), 3) == 0 for rd in st["redirs"]):
+            kind = "proc"  # predict_threadable(spec.args) looks at the first WORD, and that is the redirect operator
+        stages.append([Sym(kind), rs])
     cap = "hidden" if cell["cap"] == "bare" else cell["cap"]
     return [tables_sx(ops), list(quirks), list(cell["cfg"]), Sym(cap), stages, [Sym(t["state"]) for t in cell["targets"]]]
 
@@ -426,6 +431,7 @@ ERR_PATTERNS = [
     ("openFailed", "XonshError", "no such file or directory"),
     ("openFailed", "XonshError", "permission denied"),
     ("unsupportedLoc", "Exception", "Unsupported redirect"),
+    ("emptyCmd", "XonshError", "command is empty"),
     ("intNotReadable", "AttributeError", "'int' object has no attribute 'readable'"),
     ("valueErr", "ValueError", "invalid literal for int()"),
     ("noMatch", "AttributeError", "'NoneType' object has no attribute 'groups'"),
@@ -535,7 +541,7 @@ def place_key(cell, p):
 
 
 def expected_from(cell, stages_sx):
-    """model / spec stage list -> (per stage [src, out places, err places], {target: pre line must be kept?})"""
+    """model / spec stage list -> (per stage [src, out places, err places], {target: open mode})"""
     out = []
     modes = {}
     for st in stages_sx:
@@ -543,14 +549,10 @@ def expected_from(cell, stages_sx):
         src = [str(src[0]), src[1]] if isinstance(src, list) else str(src)
         if src == "broken":
             src = "pipe"  # an unreadable stdin object shows as an empty record
-        if src == "blocked":
-            out.append(None)  # the stage never gets past reading its stdin
-            continue
         o = sorted(place_key(cell, p) for p in st[1])
         e = sorted(place_key(cell, p) for p in st[2])
-        for p in list(st[1]) + list(st[2]):
-            if isinstance(p, list) and str(p[0]) == "file":
-                modes[p[1]] = p[2]
+        for t, mode in st[3]:
+            modes[t] = mode
         out.append([src, o, e])
     return out, modes
 
@@ -570,14 +572,14 @@ def compare(cell, obs, outcome, what):
     if outcome[2]:
         if obs["err"] != "intNotReadable":
             return f"{what} says AttributeError after the run; observed {obs['err']}"
+        if not stages:
+            # inside a pipeline the exception leaves the stages in an unpredictable state (the pipe into the last stage stays open
+            # in the shell, earlier stages are torn down at some moment): only the exception itself is claimed
+            return None
     elif obs["err"] is not None:
         return f"{what} says the command completes; observed {obs['exc']}"
     for i, exp in enumerate(stages):
         got = obs["stages"][i] if i < len(obs["stages"]) else None
-        if exp is None:
-            if got is not None:
-                return f"{what}: stage {i} is expected to block on its stdin; it ran"
-            continue
         if got is None:
             return f"{what}: stage {i} did not run"
         if got[1] != exp[1]:
@@ -666,9 +668,10 @@ def random_cell(rng, G):
             key = rng.choice(["outFile:w", "outFile:a", "errFile:w", "errToOut", "outToErr", "allFile:w", "input", "errToPipe"])
             if not ({key, oc, ec} >= {"outToErr", "errToOut"}):
                 rs.append(mk_redir(rng, G, key, cell, role="in" if key == "input" else "out"))
-        if rng.random() < 0.01:
-            rs.append({"op": rng.choice(D["takes_target"]), "target": "many", "pos": 3})
         rng.shuffle(rs)
+        if rng.random() < 0.012:
+            rs = [{"op": rng.choice(D["takes_target"]), "target": "many", "pos": 3}]  # a list-valued target, alone on its command
+        rs.sort(key=lambda rd: min(rd.get("pos", 3), 3))  # list order = order in the source text
         cell["stages"].append({"kind": kind, "redirs": rs})
     return cell
 
@@ -1000,9 +1003,10 @@ def stream_malformed(ctx, pool, name="malformed-source"):
     )
     cells = []
     for tmpl in MALFORMED:
-        for c in ("xp", "ta", "ua"):
-            for cap in ("bare", "uncaptured", "stdout", "object"):
-                if ctx.quick() and ctx.rng.random() < 0.6:
+        # stage kinds / capture forms on which none of the seven known deviations can interfere with these texts
+        for c, cap in (("xp", "bare"), ("xp", "uncaptured"), ("xp", "stdout"), ("xp", "object"), ("ta", "bare"), ("ta", "stdout"), ("ta", "object"), ("ua", "stdout")):
+            if True:
+                if ctx.quick() and ctx.rng.random() < 0.5:
                     continue
                 body = tmpl.format(c=c)
                 src = {"bare": body, "uncaptured": f"$[{body}]", "stdout": f"r = $({body})", "object": f"r = !({body})"}[cap]
@@ -1031,7 +1035,7 @@ def stream_malformed(ctx, pool, name="malformed-source"):
         ran = [f"s{i}" in files for i in range(n)]
         exc = res["exc"]
         cls = err_class(exc)
-        if exc is not None and cls in ("syntax", "multiStdin", "multiStdout", "multiStderr", "needsPipe", "unthreadable", "unrecognized", "openFailed", "unsupportedLoc"):
+        if exc is not None and cls in ("syntax", "emptyCmd", "multiStdin", "multiStdout", "multiStderr", "needsPipe", "unthreadable", "unrecognized", "openFailed", "unsupportedLoc"):
             ok = not any(ran) and not any(counts.values())
             why = "an error is reported but part of the pipeline ran"
         elif exc is not None:
@@ -1042,13 +1046,7 @@ def stream_malformed(ctx, pool, name="malformed-source"):
             why = "a stage's tagged output was lost or duplicated"
         ctx.count("malformed/" + ("error" if exc is not None else "other-reading"))
         if not ok:
-            # the seven known deviations also show here (e.g. `ua … e>a` is a plain file redirect; `ua … a>o` …): attribute by re-reading
-            key = _malformed_known(wc["src"], cls, counts, ran)
-            ctx.spec_failure({"stream": name, "source": wc["src"]}, {"raised": exc, "tag_counts": counts, "ran": ran}, why, key)
-
-
-def _malformed_known(src, cls, counts, ran):
-    return None
+            ctx.spec_failure({"stream": name, "source": wc["src"]}, {"raised": exc, "tag_counts": counts, "ran": ran}, why, None)
 
 
 # ---------------------------------------------------------------------------------------------------------------- entry points
